@@ -1,5 +1,10 @@
 import Bptk.Core.C04
 import Bptk.Proofs.PyFrag
+import Mathlib.Algebra.Order.Floor.Ring
+import Mathlib.Data.Rat.Floor
+import Mathlib.Tactic.Linarith
+import Mathlib.Tactic.Ring
+import Mathlib.Tactic.FieldSimp
 /-!
 C04 — transpiled XMILE stock/flow dynamics are Euler-exact for any dt and match the SD DSL.
 
@@ -611,7 +616,7 @@ parses (CPython binding powers, A1) to the intended parenthesised skeleton, whos
 stock code of the model -/
 theorem skeletons_parse (sk : List (Nat × Nat × List Tok)) (h : skeletonsOK sk = true) :
     ∀ e ∈ sk, Parses e.2.2 (skelPyP (nmS 0) (.num "7.5") ((flowIxs 1 e.1).map nmS) ((flowIxs (1 + e.1) e.2.1).map nmS)) ∧
-      tmOfPy (erase (skelPyP (nmS 0) (.num "7.5") ((flowIxs 1 e.1).map nmS) ((flowIxs (1 + e.1) e.2.1).map nmS))) =
+      tmOfPy ixTable (erase (skelPyP (nmS 0) (.num "7.5") ((flowIxs 1 e.1).map nmS) ((flowIxs (1 + e.1) e.2.1).map nmS))) =
         some (stockTm 0 (.lit "7.5") (flowIxs 1 e.1) (flowIxs (1 + e.1) e.2.1)) := by
   intro e he
   simp only [skeletonsOK, Bool.and_eq_true, List.all_eq_true] at h
@@ -622,48 +627,62 @@ theorem skeletons_parse (sk : List (Nat × Nat × List Tok)) (h : skeletonsOK sk
   rw [htoks]
   exact parse_print _ hwl
 
-open Bptk.Py in
+section levels
+open Bptk.Py
+theorem lvlH_paren (L : Nat) (e : Py) : lvlH L (.paren e) = 100 := rfl
+theorem lvlH_bin (L : Nat) (k : BinOp) (l r : Py) : lvlH L (.bin k l r) = bp k := rfl
+theorem lvlH_neg (L : Nat) (e : Py) : lvlH L (.neg e) = 7 := rfl
+theorem lvlH_num (L : Nat) (s : String) : lvlH L (.num s) = 100 := rfl
+theorem lvlH_name (L : Nat) (s : String) : lvlH L (.name s) = 100 := rfl
+theorem lvlH_str (L : Nat) (s : String) : lvlH L (.str s) = 100 := rfl
+theorem lvlH_attr (L : Nat) (e : Py) (a : String) : lvlH L (.attr e a) = 100 := rfl
+theorem lvlH_call (L : Nat) (f : Py) (as : List Py) : lvlH L (.call f as) = 100 := rfl
+theorem lvlH_ite (L : Nat) (x c y : Py) : lvlH L (.ite x c y) = 0 := rfl
+
+theorem memoPy_lvl (n : String) (te : TE) : lvlH 0 (memoPy n te) = 100 := by cases te <;> rfl
+
+theorem memoPy_wl (n : String) (te : TE) : WLb 0 (memoPy n te) = true := by
+  cases te <;>
+    simp [WLb, memoPy, selfAttr, WLbArgs, WLbArg, lvlH_name, lvlH_attr, lvlH_str, lvlH_bin, ldem, rbp, bp]
+
 theorem sumPy_wl (te : TE) (ns : List String) (acc : Py) (hacc : WLb 0 acc = true)
-    (hl : lvlH 0 acc ≥ 5) : WLb 0 (sumPy te acc ns) = true ∧ lvlH 0 (sumPy te acc ns) ≥ 5 := by
+    (hl : 5 ≤ lvlH 0 acc) : WLb 0 (sumPy te acc ns) = true ∧ 5 ≤ lvlH 0 (sumPy te acc ns) := by
   induction ns generalizing acc with
   | nil => exact ⟨by simpa [sumPy] using hacc, by simpa [sumPy] using hl⟩
   | cons n ns ih =>
     simp only [sumPy]
     apply ih
-    · cases te <;> simp [WLb, memoPy, selfAttr, hacc, lvlH, lvl, ldem, rbp, bp, WLbArgs, WLbArg] <;> omega
-    · simp [lvlH, lvl, bp]
+    · simp [WLb, hacc, memoPy_wl, memoPy_lvl, ldem, rbp, bp, hl]
+    · simp [lvlH_bin, bp]
 
-open Bptk.Py in
-theorem memoPy_wl (n : String) (te : TE) : WLb 0 (memoPy n te) = true ∧ lvlH 0 (memoPy n te) ≥ 5 := by
-  cases te <;> simp [WLb, memoPy, selfAttr, lvlH, lvl, ldem, rbp, bp, WLbArgs, WLbArg]
+theorem sumPy_memo_wl (i : String) (is : List String) :
+    WLb 0 (sumPy .prev (memoPy i .prev) is) = true ∧ 5 ≤ lvlH 0 (sumPy .prev (memoPy i .prev) is) :=
+  sumPy_wl .prev is (memoPy i .prev) (memoPy_wl i .prev) (by simp [memoPy_lvl])
 
-open Bptk.Py in
+theorem netPyP_wl (ins outs : List String) : WLb 0 (netPyP ins outs) = true ∧ 7 ≤ lvlH 0 (netPyP ins outs) := by
+  match ins, outs with
+  | [], [] => simp [netPyP, WLb, lvlH_num]
+  | i :: is, [] => simp [netPyP, WLb, lvlH_paren, (sumPy_memo_wl i is).1]
+  | [], o :: os =>
+    simp [netPyP, WLb, lvlH_paren, lvlH_neg, lvlH_num, (sumPy_memo_wl o os).1, ldem, rbp, bp]
+  | i :: is, o :: os =>
+    have h1 := sumPy_memo_wl i is
+    have h2 := sumPy_memo_wl o os
+    simp [netPyP, WLb, lvlH_paren, h1.1, h2.1, h1.2, ldem, rbp, bp]
+
 /-- for ANY number of inflows and outflows the intended text is well-levelled, hence (A1 round trip)
 its tokens parse to exactly the intended tree: inflows summed left to right, minus the parenthesised
 sum of the outflows, all at `t-self.dt` -/
 theorem skelPyP_parses (s : String) (init : Py) (hinit : WLb 0 init = true) (ins outs : List String) :
     Parses (pr (skelPyP s init ins outs)) (skelPyP s init ins outs) := by
   apply parse_print
-  have hm := memoPy_wl s .prev
-  have hnet : WLb 0 (netPyP ins outs) = true ∧ lvlH 0 (netPyP ins outs) ≥ 7 := by
-    match ins, outs with
-    | [], [] => simp [netPyP, WLb, lvlH, lvl]
-    | i :: is, [] =>
-      have := sumPy_wl .prev is (memoPy i .prev) (memoPy_wl i .prev).1 (memoPy_wl i .prev).2
-      simp [netPyP, WLb, lvlH, lvl, this.1]
-    | [], o :: os =>
-      have := sumPy_wl .prev os (memoPy o .prev) (memoPy_wl o .prev).1 (memoPy_wl o .prev).2
-      simp [netPyP, WLb, lvlH, lvl, this.1, ldem, rbp, bp]
-    | i :: is, o :: os =>
-      have h1 := sumPy_wl .prev is (memoPy i .prev) (memoPy_wl i .prev).1 (memoPy_wl i .prev).2
-      have h2 := sumPy_wl .prev os (memoPy o .prev) (memoPy_wl o .prev).1 (memoPy_wl o .prev).2
-      have := h1.2
-      simp [netPyP, WLb, lvlH, lvl, h1.1, h2.1, ldem, rbp, bp]
-      omega
-  have := hm.2
-  have := hnet.2
-  simp [skelPyP, WLb, hinit, hm.1, hnet.1, selfAttr, lvlH, lvl, ldem, rbp, bp]
+  have hnet := netPyP_wl ins outs
+  have h7 : 7 ≤ lvlH 0 (netPyP ins outs) := hnet.2
+  show WLb 0 (skelPyP s init ins outs) = true
+  simp [skelPyP, WLb, hinit, memoPy_wl, memoPy_lvl, hnet.1, selfAttr, lvlH_paren, lvlH_bin, lvlH_name, lvlH_attr,
+    ldem, rbp, bp]
   omega
+end levels
 
 /-! ### Graphical functions: the generated LERP is a clamped interpolation -/
 
@@ -691,6 +710,99 @@ theorem lerp_total (C : Carrier α) (p0 : α × α) (rest : List (α × α)) (x 
   split
   · exact ⟨_, rfl⟩
   · split <;> exact ⟨_, rfl⟩
+
+/-! ### Time keys: the normalising memoize lands on the previous label (rational time, bounded error) -/
+
+/-- Python's round-half-even to an integer, on ℚ -/
+def rndHE (y : ℚ) : ℤ :=
+  let f := ⌊y⌋
+  let r := y - f
+  if r < 1/2 then f else if 1/2 < r then f + 1 else (if f % 2 = 0 then f else f + 1)
+
+theorem rndHE_near (y : ℚ) (k : ℤ) (h : |y - k| < 1/2) : rndHE y = k := by
+  have h1 := abs_lt.mp h
+  unfold rndHE
+  simp only
+  by_cases hk : (k:ℚ) ≤ y
+  · have hf : ⌊y⌋ = k := by
+      rw [Int.floor_eq_iff]; constructor
+      · exact hk
+      · linarith [h1.2]
+    rw [hf]
+    have : y - (k:ℚ) < 1/2 := by linarith [h1.2]
+    rw [if_pos this]
+  · rw [not_le] at hk
+    have hf : ⌊y⌋ = k - 1 := by
+      rw [Int.floor_eq_iff]; constructor
+      · push_cast; linarith [h1.1]
+      · push_cast; linarith
+    rw [hf]
+    have h2 : ¬ (y - ((k - 1 : ℤ) : ℚ) < 1/2) := by push_cast; linarith [h1.1]
+    have h3 : (1/2 : ℚ) < y - ((k - 1 : ℤ) : ℚ) := by push_cast; linarith [h1.1]
+    rw [if_neg h2, if_pos h3]; ring
+
+/-- `grid_time` / `fp.normalize` in exact arithmetic -/
+def normQ (start dt x : ℚ) : ℚ := dt * (rndHE ((x - start) / dt)) + start
+
+theorem normQ_near (start dt x : ℚ) (k : ℤ) (hdt : 0 < dt) (h : |x - (start + k * dt)| < dt / 2) :
+    normQ start dt x = start + k * dt := by
+  unfold normQ
+  have : |(x - start) / dt - k| < 1/2 := by
+    have e : (x - start) / dt - k = (x - (start + k * dt)) / dt := by field_simp; ring
+    rw [e, abs_div, abs_of_pos hdt, div_lt_iff₀ hdt]
+    linarith
+  rw [rndHE_near _ k this]; ring
+
+/-- rational time with an ADVERSARIAL rounding error on `t - dt` (any `err` below half a step) and the
+normalising memoize -/
+def ratTS (start dt : ℚ) (err : ℚ → ℚ) (tv : Nat → α) : TimeSem ℚ α where
+  prev := fun t => t - dt + err t
+  norm := normQ start dt
+  leStart := fun t => decide (t ≤ start)
+  keyEq := fun a b => decide (a = b)
+  val := fun t => tv (rndHE ((t - start) / dt)).toNat
+
+/-- `normalize_keys_on_grid`: whatever the rounding error of `t - dt` (below dt/2), the key the
+normalising memoize computes from label k+1 is label k; labels are fixed points; the start test is exact -/
+theorem normalize_keys_on_grid (C : Carrier α) (M : Model α) (tv : Nat → α) (r : Nat → Nat) (N : Nat)
+    (start dt : ℚ) (err : ℚ → ℚ) (hdt : 0 < dt) (herr : ∀ t, |err t| < dt / 2) (code : Nat → Option (Tm α)) :
+    (Ctx.mk C (ratTS start dt err tv) M tv (fun k => start + k * dt) N r code).GridOK := by
+  refine ⟨?_, ?_, ?_, ?_, ?_, ?_⟩
+  · intro k _
+    have := normQ_near start dt (start + (k : ℕ) * dt) (k : ℤ) hdt (by simp; linarith)
+    simpa [ratTS] using this
+  · intro k _
+    have h := normQ_near start dt (start + ((k + 1 : ℕ) : ℚ) * dt - dt + err (start + ((k + 1 : ℕ) : ℚ) * dt)) (k : ℤ) hdt (by
+      have e : start + ((k + 1 : ℕ) : ℚ) * dt - dt + err (start + ((k + 1 : ℕ) : ℚ) * dt) - (start + ((k : ℤ) : ℚ) * dt)
+          = err (start + ((k + 1 : ℕ) : ℚ) * dt) := by push_cast; ring
+      rw [e]; exact herr _)
+    simpa [ratTS] using h
+  · simp [ratTS]
+  · intro k _
+    simp only [ratTS, decide_eq_false_iff_not, not_le]
+    have : (0 : ℚ) < ((k + 1 : ℕ) : ℚ) * dt := by positivity
+    linarith
+  · intro i j _ _ h
+    simp only [ratTS, decide_eq_true_eq] at h
+    have h' : (i : ℚ) * dt = j * dt := by linarith
+    have := mul_right_cancel₀ (ne_of_gt hdt) h'
+    exact_mod_cast this
+  · intro k _
+    have e : (start + (k : ℚ) * dt - start) / dt = k := by
+      have : start + (k : ℚ) * dt - start = k * dt := by ring
+      rw [this]; field_simp
+    have : rndHE ((start + (k : ℚ) * dt - start) / dt) = (k : ℤ) := by
+      apply rndHE_near
+      rw [e]; simp
+    show tv (rndHE ((start + (k : ℚ) * dt - start) / dt)).toNat = tv k
+    rw [this]; simp
+
+/-- rational time, adversarial rounding of `t - dt`, normalising memoize ⇒ Euler-exact for any dt -/
+theorem rational_time_euler_exact (C : Carrier α) (M : Model α) (tv : Nat → α) (r : Nat → Nat) (N : Nat)
+    (start dt : ℚ) (err : ℚ → ℚ) (hdt : 0 < dt) (herr : ∀ t, |err t| < dt / 2)
+    (hA : (Ctx.mk C (ratTS start dt err tv) M tv (fun k => start + k * dt) N r (compile M)).Acyclic) :
+    (Ctx.mk C (ratTS start dt err tv) M tv (fun k => start + k * dt) N r (compile M)).EulerExact :=
+  xmile_run_eq_euler (normalize_keys_on_grid C M tv r N start dt err hdt herr _) hA (Or.inl rfl)
 
 /-! ### Non-vacuity -/
 
@@ -730,5 +842,7 @@ example : runVal intCarrier (natTS (fun _ => (0 : Int))) 1 (compile wM) 40 [] 0 
 #print axioms skeletons_parse
 #print axioms skelPyP_parses
 #print axioms lerp_interior
+#print axioms normalize_keys_on_grid
+#print axioms rational_time_euler_exact
 
 end Bptk.C04
